@@ -428,6 +428,46 @@ package bloomsearch
 //@ loop 2 invariant [C06] *bufferedRowCount == old(*bufferedRowCount) && *bufferedBytes == old(*bufferedBytes) && forall key str :: has(partitionBuffers, key) == old(has(partitionBuffers, key))
 //@ at call sendOptionalWithContext[error]#2 assert [C06] *bufferedRowCount == old(*bufferedRowCount) && *bufferedBytes == old(*bufferedBytes) && forall key str :: has(partitionBuffers, key) == old(has(partitionBuffers, key))
 //@ at call sendOptionalWithContext[error]#3 assert [C06] *bufferedRowCount == old(*bufferedRowCount) && *bufferedBytes == old(*bufferedBytes) && forall key str :: has(partitionBuffers, key) == old(has(partitionBuffers, key))
+// C09 (the buffer-level counters are truthful): while rows are being buffered the
+// byte counter advances by exactly the bytes handed to the partitions'
+// compression stages and the row counter by one per row (two writes per row:
+// length prefix and row) — whatever partitions the batch touches and whatever
+// was buffered before; so MaxBufferedRows / MaxBufferedBytes bound what the
+// actor really holds.
+//@ pred stagesOK(m map[string]*partitionBuffer) = forall k1 str :: has(m, k1) ==> get(m, k1) != nil && get(m, k1).compressionEncoders != nil && !storeWriter(get(m, k1).compressionEncoders.writer)
+//@ requires [C09] stagesOK(partitionBuffers) && bufferedRowCount != bufferedBytes     // the two counters are different variables
+//@ loop 5 invariant [C09] stagesOK(partitionBuffers) && forall key str :: has(partitionedRows, key) ==> has(partitionBuffers, key)
+//@ loop 6 invariant [C09] stagesOK(partitionBuffers) && forall key str :: has(partitionedRows, key) ==> has(partitionBuffers, key)
+//@ loop 7 invariant [C09] stagesOK(partitionBuffers) && forall key str :: has(partitionedRows, key) ==> has(partitionBuffers, key)
+//@ loop 3 invariant [C09] stagesOK(partitionBuffers) && forall key str :: $visited[key] ==> has(partitionBuffers, key)
+//@ loop 5 invariant [C09] ghost.stageIn >= old(ghost.stageIn) && ghost.writes >= old(ghost.writes) && (ghost.stageIn - old(ghost.stageIn) <= 4611686018427387904 && old(*bufferedBytes) >= 0 && old(*bufferedBytes) < 4611686018427387904 ==> *bufferedBytes == old(*bufferedBytes) + ghost.stageIn - old(ghost.stageIn))
+//@ loop 6 invariant [C09] ghost.stageIn >= old(ghost.stageIn) && ghost.writes >= old(ghost.writes) && (ghost.stageIn - old(ghost.stageIn) <= 4611686018427387904 && old(*bufferedBytes) >= 0 && old(*bufferedBytes) < 4611686018427387904 ==> *bufferedBytes == old(*bufferedBytes) + ghost.stageIn - old(ghost.stageIn))
+//@ loop 7 invariant [C09] ghost.stageIn >= old(ghost.stageIn) && ghost.writes >= old(ghost.writes) && (ghost.stageIn - old(ghost.stageIn) <= 4611686018427387904 && old(*bufferedBytes) >= 0 && old(*bufferedBytes) < 4611686018427387904 ==> *bufferedBytes == old(*bufferedBytes) + ghost.stageIn - old(ghost.stageIn))
+//@ loop 5 invariant [C09] ghost.writes - old(ghost.writes) <= 4611686018427387904 && old(*bufferedRowCount) >= 0 && old(*bufferedRowCount) < 4611686018427387904 ==> 2 * (*bufferedRowCount - old(*bufferedRowCount)) == ghost.writes - old(ghost.writes)
+//@ loop 6 invariant [C09] ghost.writes - old(ghost.writes) <= 4611686018427387904 && old(*bufferedRowCount) >= 0 && old(*bufferedRowCount) < 4611686018427387904 ==> 2 * (*bufferedRowCount - old(*bufferedRowCount)) == ghost.writes - old(ghost.writes)
+//@ loop 7 invariant [C09] ghost.writes - old(ghost.writes) <= 4611686018427387904 && old(*bufferedRowCount) >= 0 && old(*bufferedRowCount) < 4611686018427387904 ==> 2 * (*bufferedRowCount - old(*bufferedRowCount)) == ghost.writes - old(ghost.writes)
+// C10 (partition-level limits): while no flush has been decided, every partition
+// this batch has finished buffering into is below both row-group limits — so a
+// partition reaching MaxRowGroupRows or MaxRowGroupBytes makes this very call
+// decide to flush (for any number of partitions and rows, oversized rows
+// included). Distinct partition IDs have distinct buffers (hypothesis).
+//@ pred below(pb *partitionBuffer, e *BloomSearchEngine) = pb.rowCount < e.config.MaxRowGroupRows && pb.uncompressedSize < e.config.MaxRowGroupBytes
+//@ pred injective(m map[string]*partitionBuffer) = forall k1 str :: forall k2 str :: has(m, k1) && has(m, k2) && k1 != k2 ==> get(m, k1) != get(m, k2)
+//@ requires [C10] injective(partitionBuffers) && forall k1 str :: has(partitionBuffers, k1) ==> ref(get(partitionBuffers, k1)) >= $alloc
+//@ loop 3 invariant [C10] forall key str :: $visited[key] ==> has(partitionBuffers, key)
+//@ loop 3 invariant [C10] injective(partitionBuffers) && forall k1 str :: has(partitionBuffers, k1) ==> ref(get(partitionBuffers, k1)) >= $alloc
+//@ loop 5 invariant [C10] forall key str :: has(partitionedRows, key) ==> has(partitionBuffers, key)
+//@ loop 5 invariant [C10] injective(partitionBuffers)
+//@ loop 6 invariant [C10] forall key str :: has(partitionedRows, key) ==> has(partitionBuffers, key)
+//@ loop 6 invariant [C10] injective(partitionBuffers)
+//@ loop 7 invariant [C10] forall key str :: has(partitionedRows, key) ==> has(partitionBuffers, key)
+//@ loop 7 invariant [C10] injective(partitionBuffers)
+//@ loop 5 invariant [C10] forall key str :: $visited[key] ==> has(partitionedRows, key)
+//@ loop 6 invariant [C10] forall key str :: $visited5[key] ==> has(partitionedRows, key)
+//@ loop 7 invariant [C10] forall key str :: $visited5[key] ==> has(partitionedRows, key)
+//@ loop 5 invariant [C10] !shouldFlush ==> forall key str :: $visited[key] ==> below(get(partitionBuffers, key), b)
+//@ loop 6 invariant [C10] !shouldFlush ==> forall key str :: $visited5[key] && key != partitionID ==> below(get(partitionBuffers, key), b)
+//@ loop 7 invariant [C10] !shouldFlush ==> forall key str :: $visited5[key] && key != partitionID ==> below(get(partitionBuffers, key), b)
 // C18 / C04 (ingest link, minmax): once the configured index fields of a row have
 // been looked at, the partition buffer's range for every one of them that the
 // row holds as a number (any integer or float kind, named types included, NaN
@@ -483,6 +523,32 @@ package bloomsearch
 //@ loop 0 invariant arr(doneChans) >= $alloc
 //@ loop 1 invariant arr(doneChans) >= $alloc
 
+// Constructor and Start (C09, C22, C05): the queues have exactly the configured
+// capacities — ingestChan holds IngestBufferSize requests, flushChan one flush
+// request, the query semaphore MaxQueryConcurrency tokens — and Start spawns the
+// two workers exactly once (never after Stop, never twice).
+//@ ghostvar gos int     // go statements executed
+//@ extern context.WithCancel
+//@ pure
+//@ extern slog.New
+//@ pure
+//@ func NewBloomSearchEngine
+//@ props C09 C22
+//@ modifies heaps
+//@ ensures result1 == nil ==> result0 != nil && cap(result0.ingestChan) == config.IngestBufferSize && cap(result0.flushChan) == 1 && cap(result0.querySemaphore) == config.MaxQueryConcurrency
+//@ ensures result1 == nil ==> config.IngestBufferSize > 0 && config.MaxQueryConcurrency > 0 && config.MaxBufferedRows > 0 && config.MaxBufferedBytes > 0 && config.MaxRowGroupRows > 0 && config.MaxRowGroupBytes > 0
+//@ ensures result1 == nil ==> !result0.started && !result0.stopped
+
+//@ extern (*sync.WaitGroup).Add
+//@ pure
+//@ func (*BloomSearchEngine).Start
+//@ props C09 C05
+//@ requires b != nil
+//@ modifies b.started, ghost.gos, ghost.rwLocks, ghost.rwUnlocks
+//@ ensures old(b.started) || old(b.stopped) ==> ghost.gos == old(ghost.gos) && b.started == old(b.started)
+//@ ensures !old(b.started) && !old(b.stopped) ==> ghost.gos == old(ghost.gos) + 2 && b.started
+//@ ensures ghost.rwLocks == old(ghost.rwLocks) + 1 && ghost.rwUnlocks == old(ghost.rwUnlocks) + 1
+
 // Stop: the deadline abort is armed (context.AfterFunc(ctx, flushCancel)) before
 // Stop can block on the state lock — callers blocked on a full ingest buffer hold
 // the read lock, so arming it later would let a wedged pipeline pin Stop past
@@ -495,7 +561,7 @@ package bloomsearch
 //@ func (*BloomSearchEngine).Stop
 //@ props C08
 //@ requires b != nil
-//@ modifies heaps, ghost.afterFuncs, ghost.rwLocks, ghost.rwUnlocks, ghost.recvs, ghost.sends, ghost.nilsends
+//@ modifies heaps, ghost.afterFuncs, ghost.rwLocks, ghost.rwUnlocks, ghost.recvs, ghost.sends, ghost.nilsends, ghost.gos
 //@ at call (*sync.RWMutex).Lock#1 assert [C08] ghost.afterFuncs == old(ghost.afterFuncs) + 1
 //@ at call dynamic#1 assert [C08] b.stopped && ghost.rwLocks == old(ghost.rwLocks) + 1 && ghost.rwUnlocks == old(ghost.rwUnlocks) + 1
 //@ ensures [C08] ghost.afterFuncs == old(ghost.afterFuncs) + 1 && ghost.rwLocks == old(ghost.rwLocks) + 1 && ghost.rwUnlocks == old(ghost.rwUnlocks) + 1
@@ -538,6 +604,16 @@ package bloomsearch
 //@ pure
 //@ extern (*atomic.Int64).Load
 //@ pure
+
+// newResults: the cursor remembers the CALLER's context as such (terminate
+// reports a cancellation only when that one is done — a deliberate Close cancels
+// only the derived context), starts undecided, and buffers queryRowBatchBuffer
+// batches.
+//@ func newResults
+//@ props C20
+//@ modifies heaps
+//@ ensures result != nil && result.callerCtx == ctx && !result.iterDone && !result.finalized && result.err == nil
+//@ ensures cap(result.rowChan) == queryRowBatchBuffer
 
 // Terminal state decided once: finish sets iterDone/finalized, clears the
 // iteration state, and writes err only if no terminal state existed.
